@@ -39,13 +39,13 @@ HasHash(line) == \E i \in DOMAIN line : line[i] = "HASH"
 FirstHash(line) == CHOOSE i \in DOMAIN line : line[i] = "HASH" /\ \A j \in 1..(i - 1) : line[j] # "HASH"
 StripComment(line) == IF HasHash(line) THEN SubSeq(line, 1, FirstHash(line) - 1) ELSE line
 
-(* Fields of s as [from, to] index pairs, left to right. *)
-FieldStarts(s) == {i \in DOMAIN s : ~IsSep(s[i]) /\ (i = 1 \/ IsSep(s[i - 1]))}
+(* Fields of s as [from, to] index pairs, left to right.  (Linear in the     *)
+(* length of s: lines with a hundred names are part of the model.)            *)
+IsFieldStart(s, i) == ~IsSep(s[i]) /\ (i = 1 \/ IsSep(s[i - 1]))
 FieldEnd(s, i) == CHOOSE j \in i..Len(s) : /\ \A k \in i..j : ~IsSep(s[k])
                                            /\ (j = Len(s) \/ IsSep(s[j + 1]))
-Fields(s) == LET st == FieldStarts(s)
-                 Nth(k) == CHOOSE i \in st : Cardinality({j \in st : j < i}) = k - 1
-             IN [k \in 1..Cardinality(st) |-> <<Nth(k), FieldEnd(s, Nth(k))>>]
+Fields(s) == LET st == SelectSeq([i \in 1..Len(s) |-> i], LAMBDA i : IsFieldStart(s, i))
+             IN [k \in DOMAIN st |-> <<st[k], FieldEnd(s, st[k])>>]
 Text(s, f) == SubSeq(s, f[1], f[2])
 
 AddrOK(txt) == Len(txt) >= 1 /\ txt[1] \in AddrToks /\ (Len(txt) = 1 \/ txt[1] = "A6z")
